@@ -464,10 +464,33 @@ func (s *sched) handOff(me *task, site int32) bool {
 		next = s.choose(me, false)
 	}
 	if next == nil {
-		if meRunnable || me.done {
-			// nobody else can run: keep going (a finished last task simply exits;
-			// root has been made runnable by wakeWaiters before this point)
-			return true
+		if meRunnable {
+			return true // nobody else can run: keep going
+		}
+		if me.done {
+			// a finishing task with nobody to hand the token to. When every other
+			// task is done too, root has been made runnable by wakeWaiters and was
+			// chosen above; getting here means the rest are parked for ever (a
+			// goroutine the code under test leaves blocked on a channel, say):
+			// that is a deadlock of the run, and root must be told - or nobody
+			// would hold the token any more
+			alive := false
+			for i := int32(1); i < s.ntasks; i++ {
+				if t := s.tasks[i]; t != me && !t.done {
+					alive = true
+				}
+			}
+			root := s.tasks[0]
+			if !alive || me == root {
+				return true
+			}
+			s.res.Deadlock = true
+			root.blocked, root.waitKids, root.waitObj, root.nsel = false, false, 0, 0
+			s.cur = root
+			raceOff()
+			root.wake <- struct{}{}
+			raceOn()
+			return false
 		}
 		// the caller must block but nobody can run: deadlock. Root is told and
 		// ends the run; the stuck task stays parked for ever.
